@@ -112,6 +112,64 @@ theorem C11_filter_exact {μ : Type} (dec : Dec μ) (cfg : Cfg μ) (pred : MsgIn
   | true => simp only [actFilter, hk, if_true, hi, Except.toOption, Option.isSome_some]
   | false => simp only [actFilter, hk, Bool.false_eq_true, if_false, Option.isSome_none]
 
+/-- **one iteration at a rejected message** (arbitrary predicate, arbitrary continuation `x` of the stream —
+    the empty separator included): nothing is yielded and the position advances by EXACTLY the length of the
+    message when only metadata is read (the declared-length slice already is the whole message: no further
+    bytes are stepped over), and by the span of the metadata-only decoding when data sections are decoded.
+    In neither mode does the advance exceed the message (see `C11_rejected_advance_le`). -/
+theorem C11_rejected_advance {μ : Type} (dec : Dec μ) (cfg : Cfg μ) (pred : MsgInfo μ → Except Err Bool)
+    (hf : cfg.filter = some pred) (hfr : Frame dec) (m x : Bytes) (hv : ValidMsg dec m)
+    (hrej : ∀ i, dec true m = .ok i → pred i = .ok false)
+    (hspan : cfg.infoOnly = false → infoSpan dec m ≤ m.length) :
+    step dec cfg (m ++ x) = .adv (if cfg.infoOnly then m.length else infoSpan dec m) none := by
+  obtain ⟨ii, hii, hdecl⟩ := hv.info
+  have hp := hrej ii hii
+  have h1 := hfr true m x ii hii
+  cases hb : cfg.infoOnly with
+  | true =>
+    simp only [step, tryBody, decodeHere, hf, h1, hp, hb, hdecl, take_length_append, Bool.false_and,
+      if_true, Bool.false_eq_true, if_false]
+  | false =>
+    have hs : infoSpan dec m = ii.consumed := by simp only [infoSpan, hii]
+    have hle := hspan hb
+    rw [hs] at hle
+    have hl : (List.take ii.consumed (m ++ x)).length = ii.consumed := by
+      rw [List.length_take, List.length_append]; omega
+    simp only [step, tryBody, decodeHere, hf, h1, hp, hb, hl, hs, Bool.false_and, Bool.false_eq_true, if_false]
+
+/-- ... in both modes the scan position after a rejected message is inside or at the end of that message,
+    never behind it: whatever follows the message (a separator of any length, or the next message at once)
+    is still searched -/
+theorem C11_rejected_advance_le {μ : Type} (dec : Dec μ) (cfg : Cfg μ) (pred : MsgInfo μ → Except Err Bool)
+    (hf : cfg.filter = some pred) (hfr : Frame dec) (m x : Bytes) (hv : ValidMsg dec m)
+    (hrej : ∀ i, dec true m = .ok i → pred i = .ok false)
+    (hspan : cfg.infoOnly = false → infoSpan dec m ≤ m.length) :
+    ∃ n, step dec cfg (m ++ x) = .adv n none ∧ n ≤ m.length ∧ (cfg.infoOnly = true → n = m.length) := by
+  refine ⟨_, C11_rejected_advance dec cfg pred hf hfr m x hv hrej hspan, ?_, ?_⟩
+  · cases hb : cfg.infoOnly with
+    | true => simp
+    | false => simpa using hspan hb
+  · intro hb; simp [hb]
+
+/-- **the message after a rejected one is found**, in both modes and for ANY signature-free separator
+    (the empty one included): after the advance of `C11_rejected_advance` the next signature the search finds
+    is the first byte of the next message.  (Full mode: what is left of the rejected message, its end
+    section, must not form a signature with the separator — `C11_stop_signature_tail_is_quiet`.) -/
+theorem C11_rejected_resync (m sep next : Bytes) (n : Nat) (hn : n ≤ m.length)
+    (hq : Quiet (m.drop n ++ sep)) :
+    findSig ((m ++ (sep ++ (sig ++ next))).drop n) = some (m.length - n + sep.length) := by
+  have h : (m ++ (sep ++ (sig ++ next))).drop n = (m.drop n ++ sep) ++ (sig ++ next) := by
+    rw [List.drop_append_of_le_length hn, List.append_assoc]
+  rw [h, findSig_quiet_append _ _ hq]
+  simp only [List.length_append, List.length_drop]
+
+/-- ... when only metadata is read: right behind the separator, for every signature-free separator -/
+theorem C11_rejected_resync_info_only (m sep next : Bytes) (hs : ¬ sig <:+: sep) :
+    findSig ((m ++ (sep ++ (sig ++ next))).drop m.length) = some sep.length := by
+  have h := C11_rejected_resync m sep next m.length (Nat.le_refl _)
+    (by simpa using quiet_of_not_infix sep hs)
+  simpa using h
+
 /-- what an unmatched message leaves behind in the section model (`7777`) keeps a signature-free
     separator quiet -/
 theorem C11_stop_signature_tail_is_quiet (sep : Bytes) (h : ¬ sig <:+: sep) : Quiet (stopSig ++ sep) :=
@@ -126,7 +184,7 @@ def toyDec : Dec Unit := fun b s =>
 /-- `BUFR BUFR 7777`: a valid toy message whose body contains both signatures -/
 def toyMsg : Bytes := sig ++ sig ++ stopSig
 
-example : Frame toyDec := by
+theorem toyDec_frame : Frame toyDec := by
   intro b m x i h
   unfold toyDec at h ⊢
   by_cases hc : (sig.isPrefixOf m && decide (12 ≤ m.length)) = true
@@ -139,7 +197,7 @@ example : Frame toyDec := by
     rw [if_pos h2]; exact h
   · rw [if_neg hc] at h; cases h
 
-example : ValidMsg toyDec toyMsg :=
+theorem toyMsg_valid : ValidMsg toyDec toyMsg :=
   ⟨⟨sig ++ stopSig, by decide⟩, ⟨_, rfl, by decide, by decide⟩, ⟨_, rfl, by decide⟩⟩
 
 example : sig <:+: toyMsg.drop 4 := ⟨[], stopSig, by decide⟩
@@ -152,5 +210,36 @@ example : (scan toyDec {} ([66, 85, 70] ++ toyMsg ++ ([55, 55, 55, 55, 66, 85, 7
     and the scan still finds the second message -/
 example : (scan toyDec { filter := some fun _ => .ok false } (toyMsg ++ toyMsg)) = ([], .done) := by
   decide +kernel
+
+/-- a rejected toy message followed AT ONCE by the next one (empty separator), metadata only: the iteration
+    advances by 12 = the whole message, and the second message is found and examined -/
+example : step toyDec { infoOnly := true, filter := some fun _ => .ok false } (toyMsg ++ toyMsg) = .adv toyMsg.length none :=
+  C11_rejected_advance toyDec { infoOnly := true, filter := some fun _ => .ok false } (fun _ => .ok false) rfl toyDec_frame
+    toyMsg toyMsg toyMsg_valid (fun _ _ => rfl) (fun h => by cases h)
+
+example : infoSpan toyDec toyMsg = 8 := by decide +kernel
+
+/-- full mode: by the metadata-only span (8 of the 12 bytes) -/
+example : step toyDec { filter := some fun _ => .ok false } (toyMsg ++ toyMsg) = .adv (infoSpan toyDec toyMsg) none :=
+  C11_rejected_advance toyDec { filter := some fun _ => .ok false } (fun _ => .ok false) rfl toyDec_frame
+    toyMsg toyMsg toyMsg_valid (fun _ _ => rfl) (fun _ => by decide +kernel)
+
+example : ∃ n, step toyDec { filter := some fun _ => .ok false } (toyMsg ++ toyMsg) = .adv n none ∧ n ≤ toyMsg.length ∧
+    (({ filter := some fun _ => .ok false } : Cfg Unit).infoOnly = true → n = toyMsg.length) :=
+  C11_rejected_advance_le toyDec { filter := some fun _ => .ok false } (fun _ => .ok false) rfl toyDec_frame
+    toyMsg toyMsg toyMsg_valid (fun _ _ => rfl) (fun _ => by decide +kernel)
+
+/-- full mode, empty separator: the rest of the rejected toy message (`7777`) is quiet, the next message is found
+    4 bytes on -/
+example : findSig ((toyMsg ++ ([] ++ (sig ++ [1, 2]))).drop 8) = some (toyMsg.length - 8 + 0) :=
+  C11_rejected_resync toyMsg [] [1, 2] 8 (by decide) (by unfold Quiet; decide +kernel)
+
+/-- the second of two contiguous messages is the only one yielded when the filter rejects the first (by its
+    position: the predicate here looks at nothing but is given per call) — info-only, empty separator -/
+example : (scan toyDec { infoOnly := true, filter := some fun _ => .ok false } (toyMsg ++ toyMsg)) = ([], .done) := by
+  decide +kernel
+
+example : findSig ((toyMsg ++ ([] ++ (sig ++ [1, 2]))).drop toyMsg.length) = some 0 :=
+  C11_rejected_resync_info_only toyMsg [] [1, 2] (by decide)
 
 end Bufr.Stream
